@@ -12,7 +12,7 @@ impl Prop for P {
         "C19"
     }
     fn rule(&self) -> &'static str {
-        "random histories on a pool of real headers (main chain + forks + same-height siblings + unvalidated mutants with a repeated hash / foreign validator set / altered height): valid placements (empty store, append head, new head with gap, extend left/right, gap fills), invalid batches (overlap, no neighbour, hole, reversed, substituted/repeated header, mutants, failing seams), removals (tail/middle/head/absent), sampling marks and metadata updates with repeated CIDs, all Store queries incl. get_range with every bound form; the SAME line is run on InMemoryStore and RedbStore::in_memory() and the full observable state of both is dumped after every mutating op. Non-trivial = every op except reset/dump; distinct = distinct (op, result) lines."
+        "random histories on a pool of real headers (main chain + forks + same-height siblings + unvalidated mutants with a repeated hash / foreign validator set / altered height): valid placements (empty store, append head, new head with gap, extend left/right, gap fills), invalid batches (overlap, no neighbour, hole, reversed, substituted/repeated header, mutants, failing seams), removals (tail/middle/head/absent), sampling marks and metadata updates with repeated CIDs, all Store queries incl. get_range with every bound form; the SAME line is run on InMemoryStore and RedbStore::in_memory() and the full observable state of both is dumped after every mutating op. Non-trivial = every op except reset/dump; distinct = distinct (op, result) lines. S10 size-threshold stress (both tiers, after the random histories; store_hist::big_cfgs): big histories on long chains — stores driven to >= 9/17/33 (thorough 65/129/257) disjoint ranges (one tag thr/ranges-N per threshold crossing), batches of exactly 63/64/65 and one of 511/512/513 headers (thorough: 7..9, 15..17, 31..33, 63..65, 127..129, 511..513 and one 2100+ batch on a 2300-header chain) as new heads, merged by one-height gap fills, split by middle removals, rejected overlapping / duplicate-hash batches of threshold size, sampling-metadata lists of 9/17/33/65 (thorough 129/257) CIDs with repeats, then the usual random mix on the large state."
     }
     fn gen_ops(&mut self, rng: &mut Rng, tier: Tier, out: &mut Emitter) {
         let mk = |histories, max_ops, max_chain, max_batch| GenCfg {
@@ -24,9 +24,15 @@ impl Prop for P {
             // (chains of ~200 headers, a few hundred operations)
             gen_all(&mut self.0, rng, &mk(80, 250, 100, 32), out);
             gen_all(&mut self.0, rng, &mk(6, 400, 200, 64), out);
+            // S10 size-threshold stress (sizes: store_hist::big_cfgs)
+            let bigs = big_cfgs(rng, true);
+            gen_big(&mut self.0, rng, &mk(1, 0, 0, 32), &bigs, out);
         } else {
             gen_all(&mut self.0, rng, &mk(30, 50, 20, 8), out);
             gen_all(&mut self.0, rng, &mk(1, 120, 60, 16), out);
+            // S10 size-threshold stress (sizes: store_hist::big_cfgs)
+            let bigs = big_cfgs(rng, false);
+            gen_big(&mut self.0, rng, &mk(1, 0, 0, 16), &bigs, out);
         }
     }
     fn run(&mut self, line: &str) -> String {
